@@ -73,7 +73,7 @@ TA = {'T': [['[', LIT('a')]]}          # T['a']
 OPS = []
 for name in ('real', 'x', 'zz', 'm', 'upper', 'lst'):
     OPS.append(['.', name])
-for v in (0, -1, 'a', 'zz', 5, 'f', 'g', 'l'):
+for v in (0, -1, 'a', 'zz', 5, 'f', 'g', 'l', 0.0, False):
     OPS.append(['[', LIT(v)])
 OPS.append(['[', {'slice': [0, 2, None]}])
 OPS.append(['[', {'slice': [None, None, -1]}])
@@ -94,7 +94,7 @@ for a, kw in CALLS:
     OPS.append(['(', a, kw])
 BIN = ['+', '-', '*', '/', '//', '%', '**', '&', '|', '^']
 for b in BIN:
-    operands = [LIT(2), LIT(0), LIT('a'), {'T': []}, TA]
+    operands = [LIT(2), LIT(2.0), LIT(True), LIT(0), LIT('a'), {'T': []}, TA]     # 2 / 2.0 / True: equal-but-differently-typed twins
     if b == '**':
         operands = [LIT(2), LIT(0), LIT(-1), LIT('a'), {'T': []}]
     for o in operands:
@@ -472,10 +472,82 @@ def gen_literals(tier):
     return [[k, w, p] for k in LITERAL_KINDS for w in WRAPPERS for p in POSITIONS]
 
 
+# ---------------------------------------------------------------------------
+# one T expression evaluated against several targets inside ONE glom call
+
+def mk_variant(name, i):
+    if name == 'dict':
+        return [{'a': 2, 'f': Fn('f'), 'g': Fn('g', ValueError), 'l': [10, 11, 12], 0: 'zero'},
+                {'a': 5, 'f': Fn('f2'), 'g': Fn('g2', KeyError), 'l': [20, 21], 0: 'nought', 'zz': 1},
+                {'a': 'x', 'f': Fn('f3'), 'l': []}][i]
+    if name == 'list':
+        return [[1, 2, 3], [7], [[4], 5, 6, 7, 8, 9]][i]
+    if name == 'int':
+        return [7, 0, -3][i]
+    raise ValueError(name)
+
+
+def outcome_of(f):
+    try:
+        return ('ok', type(f()).__name__ + ' ' + repr(f()))
+    except PathAccessError as e:
+        return ('pae', e.part_idx, type(e.exc).__name__)
+    except Exception as e:
+        return ('exc', type(e).__name__)
+
+
+def run_per_item(case):
+    tname, ops = case
+    spec = t_from_ops(ops)
+    alone = []
+    for i in range(3):
+        try:
+            alone.append(('ok', glom(mk_variant(tname, i), t_from_ops(ops))))
+        except Exception as e:
+            alone.append(('exc', e))
+    targets = [mk_variant(tname, i) for i in range(3)]
+    where = {'targets': tname, 'expr': repr(spec)}
+    if all(a[0] == 'ok' for a in alone):
+        try:
+            got = glom(targets, [spec])
+        except Exception as e:
+            return R({'expected': 'one result per item: %r' % ([a[1] for a in alone],), 'observed': 'raised %r' % (e,), **where}, 'ok')
+        if len(got) != 3 or any(not same_value(g, a[1]) for g, a in zip(got, alone)):
+            return R({'expected': 'what each item gives on its own: %r' % ([a[1] for a in alone],), 'observed': repr(got), **where}, 'ok')
+        # the same spec object as dict values over sub-targets
+        got2 = glom({'p': targets[0], 'q': targets[1]}, {'x': ('p', spec), 'y': ('q', spec)})
+        if not same_value(got2['x'], alone[0][1]) or not same_value(got2['y'], alone[1][1]):
+            return R({'expected': 'x=%r y=%r' % (alone[0][1], alone[1][1]), 'observed': repr(got2), **where}, 'ok')
+        return R(None, 'ok', nontrivial=bool(ops), steps=5, tags=set(o[0] for o in ops))
+    # the first failing item decides
+    k = [i for i, a in enumerate(alone) if a[0] != 'ok'][0]
+    try:
+        got = glom(targets, [spec])
+        return R({'expected': 'item %d fails: %r' % (k, alone[k][1]), 'observed': 'returned %r' % (got,), **where}, 'fail')
+    except Exception as e:
+        if type(e).__name__ != type(alone[k][1]).__name__ and not isinstance(e, type(alone[k][1])):
+            return R({'expected': 'item %d fails with %s' % (k, type(alone[k][1]).__name__), 'observed': repr(e), **where}, 'fail')
+    return R(None, 'fail', nontrivial=bool(ops), steps=4, tags=set(o[0] for o in ops))
+
+
+def gen_per_item(tier):
+    cases = []
+    for tname in ('dict', 'list', 'int'):
+        for a in OPS:
+            cases.append([tname, [a]])
+            for b in OPS:
+                cases.append([tname, [a, b]])
+    return cases
+
+
 def subs(tier, only=None):
     from ..engine import fast_tracebacks
     fast_tracebacks()
-    return [Sub('literal-arguments', gen_literals(tier), run_literal,
+    return [Sub('per-item', gen_per_item(tier), run_per_item,
+                rule='case = (family of three targets, T expression of <= 2 steps): glom(targets, [expr]) and the same expression object as two dict values '
+                     'over sub-targets against the expression evaluated on each target alone',
+                min_nontrivial=5000, min_outcomes=2, required_tags=['[', '(', '+']),
+            Sub('literal-arguments', gen_literals(tier), run_literal,
                 rule='case = (kind of literal, wrapper of plain containers around it, argument position: index / call / keyword / each binary operator); '
                      'a recording target returns the operand it received; container subclasses, namedtuples and all non-container objects must arrive '
                      'as the very same object, plain containers equal and of the same type',
